@@ -33,7 +33,7 @@ CFG = {
                     "a Unix listener's queue holds backlog+1 un-accepted connections; a TCP listener with a full accept queue drops SYNs (tcp_abort_on_overflow=0)",
                     "control buffers start 8-byte aligned (as cmsg users must), so buffers whose length is not a multiple of 8 end up to 7 bytes before the guard page",
                     "the descriptor of a tiny-std listener (no AsRawFd) is taken from the interposer log of bind"],
-    "required_classes": ["stream:writer-blocked", "stream:reader-blocked-mid-stream", "stream:eof-only-after-close", "stream:payload>=1MiB",
+    "required_classes": ["stream:writer-blocked", "stream:write!-blocked-on-a-full-buffer", "stream:write_all-blocked-on-a-full-buffer", "stream:reader-blocked-mid-stream", "stream:eof-only-after-close", "stream:payload>=1MiB",
                          "stream:payload~sndbuf", "stream:tcp", "stream:unix",
                          "eintr:eintr-in-ppoll", "eintr:eintr-in-ppoll-after-real-wait", "eintr:eintr-in-read", "eintr:eintr-in-write",
                          "timeouts:unix-accept", "timeouts:tcp-accept", "timeouts:tcp-connect", "timeouts:tcp-read", "timeouts:eintr-after-wait",
